@@ -54,7 +54,9 @@ let () =
             | Some (peak, largest) when comp <> "amf0" || true -> if peak <= allowance && largest <= allowance then [] else ["C03.alloc_bounded", false; "C19.bounded_memory", false]
             | _ -> []) in
         let orc = orc @ (if contains "PANIC" obs then ["C03.never_panics", false] else [])
-                      @ (if contains "HANG" obs then ["C03.never_hangs", false; "C19.never_hangs", false] else []) in
+                      @ (if contains "HANG" obs then ["C03.never_hangs", false; "C19.never_hangs", false] else [])
+                      (* C14: the AMF0 decoder terminates with a value or an error on every input *)
+                      @ (if comp = "amf0" && contains "HANG" obs then ["C14.decode_terminates", false] else []) in
         if model_obs <> obs then begin
           incr diffs;
           Printf.printf "DIFF\t%s\timpl=%s\tmodel=%s\n" case obs model_obs
